@@ -60,7 +60,10 @@ InitSet ==
       [] Family = "shape"     -> {b \in WithFp(WithLevels(Grid)) : Usable(b)}
 
 (******************************* state machine ******************************)
-\* pc values follow the hook events: enter -> pad -> clamp -> spectrum -> solve -> untruncate -> crop -> done
+(* One action per hook event of bldfm/solver.py (the event name is given in  *)
+(* the comment), so that a recorded trace maps one to one onto a behaviour.  *)
+(* Implicit exceptions (IndexError, broadcast ValueError) have no event:    *)
+(* the trace simply ends where the model takes the corresponding Fail step. *)
 Init == /\ vc \in InitSet
         /\ vpc = "enter"
         /\ vg = [stage |-> "enter"]
@@ -70,64 +73,92 @@ Fail(kind) == /\ vpc' = "done"
               /\ vres' = [err |-> kind]
               /\ UNCHANGED <<vc, vg>>
 
-Enter ==    /\ vpc = "enter"
-            /\ IF ((vc.mx % 2) # 0) \/ ((vc.my % 2) # 0)
-               THEN Fail("odd_modes")
-               ELSE vpc' = "pad" /\ UNCHANGED <<vc, vg, vres>>
+OddModes(c) == ((c.mx % 2) # 0) \/ ((c.my % 2) # 0)
 
-Pad ==      /\ vpc = "pad"
+RaiseOddModes ==                                              \* event raise(kind = odd_modes)
+            /\ vpc = "enter" /\ OddModes(vc) /\ Fail("odd_modes")
+
+Pad ==      /\ vpc = "enter" /\ ~OddModes(vc)                \* event pad
             /\ LET g == Geometry(vc) IN
                vg' = [stage |-> "pad", halo |-> g.halo, px |-> g.px, py |-> g.py, nxe |-> g.nxe, nye |-> g.nye]
             /\ vpc' = "clamp"
             /\ UNCHANGED <<vc, vres>>
 
-Clamp ==    /\ vpc = "clamp"
+Clamp ==    /\ vpc = "clamp"                                  \* event clamp
             /\ LET g == Geometry(vc) IN
                vg' = [vg EXCEPT !.stage = "clamp"] @@ [nlx |-> g.nlx, nly |-> g.nly, dlx |-> g.dlx, dly |-> g.dly, clamped |-> g.clamped]
             /\ vpc' = "spectrum"
             /\ UNCHANGED <<vc, vres>>
 
-SpectrumStage ==
+SpectrumStage ==                                              \* event spectrum
             /\ vpc = "spectrum"
             /\ LET g == Geometry(vc) IN
-               IF (~vc.fp) /\ vc.prec \in {"single", "double"} /\ ((g.tnx # g.nlx) \/ (g.tny # g.nly))
-               THEN \* the truncated spectrum has the wrong shape; the first masked access raises IndexError
-                    /\ vg' = [vg EXCEPT !.stage = "spectrum"] @@ [tnx |-> g.tnx, tny |-> g.tny]
-                    /\ vpc' = "indexerror"
-                    /\ UNCHANGED <<vc, vres>>
-               ELSE IF vc.prec \notin {"single", "double"} THEN Fail("precision")
-               ELSE /\ vg' = [vg EXCEPT !.stage = "spectrum"] @@ [tnx |-> IF vc.fp THEN g.nlx ELSE g.tnx, tny |-> IF vc.fp THEN g.nly ELSE g.tny]
-                    /\ vpc' = "solve"
-                    /\ UNCHANGED <<vc, vres>>
+               vg' = [vg EXCEPT !.stage = "spectrum"] @@ [tnx |-> IF vc.fp THEN g.nlx ELSE g.tnx, tny |-> IF vc.fp THEN g.nly ELSE g.tny]
+            /\ vpc' = "alloc"
+            /\ UNCHANGED <<vc, vres>>
 
-IndexError == /\ vpc = "indexerror" /\ Fail("index")
+RaisePrecision ==                                             \* event raise(kind = precision)
+            /\ vpc = "alloc" /\ vc.prec \notin {"single", "double"} /\ Fail("precision")
 
-Solve ==    /\ vpc = "solve"
-            /\ LET g == Geometry(vc) IN
-               IF ErrorOf(vc, g) = "broadcast" THEN Fail("broadcast")
+\* the truncated spectrum has the wrong shape: the first masked access raises IndexError (no event)
+IndexError ==
+            /\ vpc = "alloc" /\ vc.prec \in {"single", "double"}
+            /\ ~vc.fp /\ ((vg.tnx # vg.nlx) \/ (vg.tny # vg.nly))
+            /\ Fail("index")
+
+Alloc ==    /\ vpc = "alloc" /\ vc.prec \in {"single", "double"}          \* no event
+            /\ (vc.fp \/ (vg.tnx = vg.nlx /\ vg.tny = vg.nly))
+            /\ vpc' = IF vc.an THEN "analytic" ELSE "threads"
+            /\ UNCHANGED <<vc, vg, vres>>
+
+AnalyticBranch ==                                             \* no event (broadcast ValueError: no event either)
+            /\ vpc = "analytic"
+            /\ IF ErrorOf(vc, Geometry(vc)) = "broadcast" THEN Fail("broadcast")
                ELSE vpc' = "untruncate" /\ UNCHANGED <<vc, vg, vres>>
 
-UntruncateStage ==
+ThreadSetup ==                                                \* event thread_setup
+            /\ vpc = "threads" /\ vpc' = "sweep1" /\ UNCHANGED <<vc, vg, vres>>
+Sweep1 ==   /\ vpc = "sweep1" /\ vpc' = "sweep2" /\ UNCHANGED <<vc, vg, vres>>     \* event kernel_call
+Sweep2 ==   /\ vpc = "sweep2" /\ vpc' = "mean"                                   \* event kernel_call
+            /\ vg' = [vg EXCEPT !.stage = "mean"] @@ [stored |-> {}]
+            /\ UNCHANGED <<vc, vres>>
+
+\* the mean-mode loop walks the nodes upward and stores a node in the slot whose level it is
+NextSlot == CHOOSE k \in (1..NLv(vc)) \ vg.stored :
+                \A j \in (1..NLv(vc)) \ vg.stored : SlotNode(vc, k) <= SlotNode(vc, j)
+MeanStore ==                                                  \* event mean_store(node, slot)
+            /\ vpc = "mean" /\ vg.stored # 1..NLv(vc)
+            /\ vg' = [vg EXCEPT !.stored = @ \cup {NextSlot}]
+            /\ UNCHANGED <<vc, vpc, vres>>
+MeanDone == /\ vpc = "mean" /\ vg.stored = 1..NLv(vc)         \* no event
+            /\ vpc' = "untruncate" /\ UNCHANGED <<vc, vg, vres>>
+
+UntruncateStage ==                                            \* event untruncate
             /\ vpc = "untruncate"
             /\ LET g == Geometry(vc) IN
                vg' = [vg EXCEPT !.stage = "untruncate"] @@ [unx |-> g.unx, uny |-> g.uny]
             /\ vpc' = "crop"
             /\ UNCHANGED <<vc, vres>>
 
-Crop ==     /\ vpc = "crop"
+Crop ==     /\ vpc = "crop"                                   \* event crop
             /\ LET g == Geometry(vc) IN
                vg' = [vg EXCEPT !.stage = "crop"] @@ [onx |-> g.onx, ony |-> g.ony]
             /\ vpc' = "return"
             /\ UNCHANGED <<vc, vres>>
 
-Return ==   /\ vpc = "return"
+Return ==   /\ vpc = "return"                                 \* event return
             /\ vres' = Run(vc)
             /\ vpc' = "done"
             /\ UNCHANGED <<vc, vg>>
 
-Next == Enter \/ Pad \/ Clamp \/ SpectrumStage \/ IndexError \/ Solve \/ UntruncateStage \/ Crop \/ Return
+Next == \/ RaiseOddModes \/ Pad \/ Clamp \/ SpectrumStage \/ RaisePrecision \/ IndexError \/ Alloc
+        \/ AnalyticBranch \/ ThreadSetup \/ Sweep1 \/ Sweep2 \/ MeanStore \/ MeanDone
+        \/ UntruncateStage \/ Crop \/ Return
 
 Spec == Init /\ [][Next]_vars
+
+\* the stage-by-stage result agrees with the one-shot operator (the two presentations of the model are the same)
+StagesAgree == vpc = "done" => vres.err = ErrorOf(vc, Geometry(vc))
 
 Done == vpc = "done"
 OK == Done /\ vres.err = "none"
@@ -320,7 +351,7 @@ SlotIsSingle ==
 FullColumnSlice ==
     OK =>
         LET rf == Run([vc EXCEPT !.lv = [n \in 1..vc.nz |-> n - 1]])
-        IN  rf.err = "none" => \A k \in 1..NL : rf.flx[vc.lv[k] + 1] = vres.flx[k] /\ rf.conc[vc.lv[k] + 1] = vres.conc[k]
+        IN  rf.err = "none" /\ \A k \in 1..NL : rf.flx[vc.lv[k] + 1] = vres.flx[k] /\ rf.conc[vc.lv[k] + 1] = vres.conc[k]
 
 (***************************************************************************)
 (* C11  low-pass and clamp                                                  *)
@@ -359,16 +390,18 @@ Emit == Done => PrintT("@@" \o ToJson(EmitRec))
 \* the same line with the truth value of each invariant of the family instead of checking it: used with the
 \* deviation switches of the pinned commit to compare the model's failure set with the real code's
 Verdicts ==
-    CASE Family = "recip"     -> [Recip |-> Recip, ShapeOrError |-> ShapeOrError]
-      [] Family = "conserve"  -> [MeanFlux |-> MeanFlux, MeanConc |-> MeanConc, HaloIsPadding |-> HaloIsPadding]
-      [] Family = "linear"    -> [Superposition |-> Superposition, BackgroundOnlyOffsetsConc |-> BackgroundOnlyOffsetsConc,
-                                  FootprintIgnoresValues |-> FootprintIgnoresValues]
-      [] Family = "translate" -> [TranslateSource |-> TranslateSource, TranslateTower |-> TranslateTower,
-                                  PointReflect |-> PointReflect, Recentre |-> Recentre]
-      [] Family = "symmetry"  -> [MirrorX |-> MirrorX, MirrorY |-> MirrorY, Transpose |-> Transpose]
-      [] Family = "levels"    -> [SlotIsSingle |-> SlotIsSingle, FullColumnSlice |-> FullColumnSlice,
-                                  NoSilentBroadcast |-> NoSilentBroadcast, MeanConc |-> MeanConc]
-      [] Family = "shape"     -> [ShapeOrError |-> ShapeOrError, LowPass |-> LowPass, ClampEq |-> ClampEq]
+    LET S == ShapeOrError IN
+    CASE Family = "recip"     -> [ShapeOrError |-> S, Recip |-> S /\ Recip]
+      [] Family = "conserve"  -> [ShapeOrError |-> S, MeanFlux |-> S /\ MeanFlux, MeanConc |-> S /\ MeanConc, HaloIsPadding |-> S /\ HaloIsPadding]
+      [] Family = "linear"    -> [ShapeOrError |-> S, Superposition |-> S /\ Superposition,
+                                  BackgroundOnlyOffsetsConc |-> S /\ BackgroundOnlyOffsetsConc,
+                                  FootprintIgnoresValues |-> S /\ FootprintIgnoresValues]
+      [] Family = "translate" -> [ShapeOrError |-> S, TranslateSource |-> S /\ TranslateSource, TranslateTower |-> S /\ TranslateTower,
+                                  PointReflect |-> S /\ PointReflect, Recentre |-> S /\ Recentre]
+      [] Family = "symmetry"  -> [ShapeOrError |-> S, MirrorX |-> S /\ MirrorX, MirrorY |-> S /\ MirrorY, Transpose |-> S /\ Transpose]
+      [] Family = "levels"    -> [ShapeOrError |-> S, SlotIsSingle |-> S /\ SlotIsSingle, FullColumnSlice |-> S /\ FullColumnSlice,
+                                  NoSilentBroadcast |-> NoSilentBroadcast]
+      [] Family = "shape"     -> [ShapeOrError |-> S, LowPass |-> S /\ LowPass, ClampEq |-> S /\ ClampEq]
 EmitV == Done => PrintT("@@" \o ToJson(EmitRec @@ [verdicts |-> Verdicts]))
 
 =============================================================================
